@@ -28,7 +28,7 @@ run_demo() { # returns 0 if demo passes
 mkdir -p "$S/repo/tests"; cp "$DST/demo.rs" "$S/repo/tests/seeded_demo.rs"
 # configurations in which the demo compiles and passes on the unchanged tree
 OKCFGS=()
-for cfg in "|" "--cfg helgoboss_midi_verif|" "|--features serde,serde_repr" "|--no-default-features" "--cfg helgoboss_midi_verif|--features serde,serde_repr" "|--release" "|--features serde"; do
+for cfg in "|" "--cfg helgoboss_midi_verif|" "|--features serde,serde_repr" "|--no-default-features" "--cfg helgoboss_midi_verif|--features serde,serde_repr" "|--release" "|--features serde" "|--release --no-default-features"; do
   flags="${cfg%%|*}"; feats="${cfg##*|}"
   if run_demo "$flags" "$feats"; then OKCFGS+=("$cfg"); fi
 done
